@@ -4,6 +4,7 @@ package main
 
 import (
 	"fmt"
+	"os"
 	"go/ast"
 	"go/constant"
 	"go/token"
@@ -80,6 +81,7 @@ type Proof struct {
 	initHeap    map[string]*Term
 	strSeen     map[int]bool
 	typeInvSeen map[int]bool
+	freshRefs   map[int]bool
 	specSeen    map[int]bool
 	specDefs    []*Term
 	inSpecUnfold bool
@@ -181,10 +183,15 @@ func (p *Proof) loadElem(st *State, et types.Type, arr, idx *Term) Value {
 	if untrackedElem(et) {
 		return freshValue(et, "anyelem")
 	}
-	return build(et, func(l leafSpec) *Term {
+	v := build(et, func(l leafSpec) *Term {
 		c := p.heapCell(st, elemsKey(et, l.Path), SArr(SRef, SArr(SBV(64), l.Sort)))
 		return Select(Select(c, arr), idx)
 	})
+	if inv := p.typeInv(st, et, v); inv != tTrue && !p.typeInvSeen[inv.id] {
+		p.typeInvSeen[inv.id] = true
+		p.assume(True(), inv)
+	}
+	return v
 }
 
 func (p *Proof) storeElem(st *State, et types.Type, arr, idx *Term, v Value) {
@@ -203,6 +210,36 @@ func (p *Proof) storeElem(st *State, et types.Type, arr, idx *Term, v Value) {
 func (p *Proof) allocRef(st *State) *Term {
 	r := st.HeapTop
 	st.HeapTop = BVAdd(st.HeapTop, BVInt(1, 64))
+	if p.freshRefs == nil {
+		p.freshRefs = map[int]bool{}
+	}
+	p.freshRefs[r.id] = true
+	return r
+}
+
+// bumpHeapTop: an unknown number of objects were allocated.
+func (p *Proof) bumpHeapTop(cur *Term, name string) *Term {
+	nt := B.Fresh(name, SRef)
+	p.assume(True(), And(BVUle(cur, nt), BVUlt(nt, BVConst(new(big.Int).Lsh(big1, 62), 64))))
+	return nt
+}
+
+// framedSyntactically: fin is init updated only at references allocated by this call.
+func (p *Proof) framedSyntactically(fin, init *Term, memo map[int]bool) bool {
+	if fin == init {
+		return true
+	}
+	if v, ok := memo[fin.id]; ok {
+		return v
+	}
+	r := false
+	switch {
+	case fin.Op == "store" && len(fin.Args) == 3 && p.freshRefs[fin.Args[1].id]:
+		r = p.framedSyntactically(fin.Args[0], init, memo)
+	case fin.Op == "ite" && len(fin.Args) == 3:
+		r = p.framedSyntactically(fin.Args[1], init, memo) && p.framedSyntactically(fin.Args[2], init, memo)
+	}
+	memo[fin.id] = r
 	return r
 }
 
@@ -928,6 +965,26 @@ func (fr *Frame) loopHead(li *loopInfo, st *State) *State {
 	li.entrySt = st
 	// havoc
 	eff := fr.loopEffects(li)
+	if os.Getenv("GOVC_DEBUG") != "" {
+		var hs, cs []string
+		for k := range eff.heap {
+			hs = append(hs, k)
+		}
+		for c := range eff.cells {
+			cs = append(cs, c.Name)
+		}
+		sort.Strings(hs)
+		sort.Strings(cs)
+		fmt.Printf("   loop %d of %s: allHeap=%v heap=%v cells=%v\n", li.ord, fr.fn.Name(), eff.allHeap, hs, cs)
+	}
+	// make sure every heap cell the loop may write has an initial value to frame against
+	for key := range eff.heap {
+		if _, ok := p.initHeap[key]; !ok {
+			if srt, ok := eff.heapSort[key]; ok {
+				p.heapCell(st, key, srt)
+			}
+		}
+	}
 	n := st.clone()
 	for cell := range eff.cells {
 		if _, ok := n.Locals[cell]; ok {
@@ -961,9 +1018,7 @@ func (fr *Frame) loopHead(li *loopInfo, st *State) *State {
 		}
 	}
 	if eff.alloc {
-		nt := B.Fresh("lp.heaptop", SRef)
-		p.assume(True(), BVUle(st.HeapTop, nt))
-		n.HeapTop = nt
+		n.HeapTop = p.bumpHeapTop(st.HeapTop, "lp.heaptop")
 	}
 	reach := B.Fresh("loop_reach", SBool)
 	n.Guard = reach
@@ -1734,8 +1789,8 @@ func floatConst(f float64) *Term {
 }
 
 func strLess(a, b *Term) *Term {
-	B.DeclareFun("str.lt", []string{SStr, SStr}, SBool)
-	return B.App("str.lt", SBool, a, b)
+	B.DeclareFun("gs.lt", []string{SStr, SStr}, SBool)
+	return B.App("gs.lt", SBool, a, b)
 }
 
 func dynType(r *Term) *Term {
